@@ -147,7 +147,8 @@ Definition explain_multi (c : multi_case) :=
 Inductive fop_in :=
 | IInit (spec : nat) (dt : Z) (refs : list Z)                  (* observed limiter identities, -1 = nil *)
 | IInherit (spec from : nat) (dt : Z) (refs : list Z)          (* refs = [-2]: Inherit itself panicked *)
-| IHandle (g : nat) (dt : Z) (matches : list bool) (code : Z). (* observed: 0 pass | 1 limited+429 | 2 panic | 3 other *)
+| IHandle (g : nat) (dt : Z) (matches : list bool) (code : Z)  (* observed: 0 pass | 1 limited+429 | 2 panic | 3 other *)
+| IClose (dt : Z) (code : Z).   (* Close of a superseded generation (Pipeline.Inherit calls prev.Close()): no effect in the model; observed 0 | 2 panic *)
 
 Record flt_case := { fc_specs : list fspec; fc_ops : list fop_in; fc_bad : bool }.
 
@@ -188,6 +189,7 @@ Fixpoint flt_corr (q : quirks) (specs : list fspec) (w : fworld) (now : Z) (ops 
       | OHandle r => (fout_code r =? code) && flt_corr q specs w' now' t
       | _ => false
       end
+  | IClose dt code :: t => (code =? 0) && flt_corr q specs w (now + dt) t
   end.
 
 (** property checker on the observed history only.
@@ -210,29 +212,81 @@ Fixpoint share_ok (expect : list (option Z)) (refs : list Z) (seen : list Z) : b
   | _, _ => false
   end.
 
-Fixpoint flt_prop (specs : list fspec) (gens : list (fspec * list Z)) (seen : list Z) (ops : list fop_in) : bool :=
+(** per limiter object seen in the trace: (identity, creation time, policy of the rule that created it) *)
+Definition lim_info := (Z * Z * policy)%type.
+
+Fixpoint new_infos (s : fspec) (now : Z) (urls : list furl) (refs : list Z) (seen : list Z) : list lim_info :=
+  match urls, refs with
+  | u :: ut, r :: rt =>
+      if existsb (Z.eqb r) seen || (r =? -1) then new_infos s now ut rt seen
+      else (r, now, lib_policy (bound_policy s u)) :: new_infos s now ut rt (r :: seen)
+  | _, _ => []
+  end.
+
+Fixpoint first_true (l : list bool) (i : nat) : option nat :=
+  match l with
+  | [] => None
+  | b :: t => if b then Some i else first_true t (S i)
+  end.
+
+Fixpoint info_of (infos : list lim_info) (r : Z) : option (Z * policy) :=
+  match infos with
+  | [] => None
+  | (r', st, p) :: t => if r =? r' then Some (st, p) else info_of t r
+  end.
+
+Definition count_adm (r k : Z) (adm : list (Z * Z)) : Z :=
+  fold_left (fun a x => if (fst x =? r) && (snd x =? k) then a + 1 else a) adm 0.
+
+(** property checker on the observed history only.
+    [gens] = (spec, observed refs) of every generation so far; [seen] = all refs observed so far;
+    [infos]/[adm] = limiter objects and the (object, period) of every admitted request: a limiter never
+    admits more than L * (T/P + 1) arrivals within one of its own periods, whatever generation asks
+    (this is what an unchanged rule "keeping its accumulated state" across reloads means for traffic). *)
+Fixpoint flt_prop (specs : list fspec) (gens : list (fspec * list Z)) (seen : list Z)
+         (infos : list lim_info) (adm : list (Z * Z)) (now : Z) (ops : list fop_in) : bool :=
   match ops with
   | [] => true
-  | IInit si _ refs :: t =>
+  | IInit si dt refs :: t =>
       let s := spec_at specs si in
       share_ok (map (fun _ => None) (fs_urls s)) refs seen &&
-      flt_prop specs (gens ++ [(s, refs)]) (refs ++ seen) t
-  | IInherit si from _ refs :: t =>
+      flt_prop specs (gens ++ [(s, refs)]) (refs ++ seen)
+               (infos ++ new_infos s (now + dt) (fs_urls s) refs seen) adm (now + dt) t
+  | IInherit si from dt refs :: t =>
       let s := spec_at specs si in
       match nth_error gens from with
       | None => false
       | Some (sold, oldrefs) =>
           share_ok (expected_share s sold (fs_urls s) oldrefs) refs seen &&
-          flt_prop specs (gens ++ [(s, refs)]) (refs ++ seen) t
+          flt_prop specs (gens ++ [(s, refs)]) (refs ++ seen)
+                   (infos ++ new_infos s (now + dt) (fs_urls s) refs seen) adm (now + dt) t
       end
-  | IHandle g _ matches code :: t =>
+  | IHandle g dt matches code :: t =>
+      let now' := now + dt in
       (* never a panic; a request matching no rule is never limited *)
       ((code =? 0) || (code =? 1)) &&
       (if existsb (fun b => b) matches then true else code =? 0) &&
-      flt_prop specs gens seen t
+      (if code =? 0 then
+         match first_true matches 0, nth_error gens g with
+         | Some i, Some (_, refs) =>
+             let r := nth i refs (-1) in
+             match info_of infos r with
+             | Some (st, p) =>
+                 if (pP p <=? 0) || (pL p <=? 0) then flt_prop specs gens seen infos adm now' t
+                 else
+                   let k := (now' - st) ÷ pP p in
+                   (count_adm r k adm <? pL p * (pT p ÷ pP p + 1)) &&
+                   flt_prop specs gens seen infos ((r, k) :: adm) now' t
+             | None => flt_prop specs gens seen infos adm now' t
+             end
+         | _, _ => flt_prop specs gens seen infos adm now' t
+         end
+       else flt_prop specs gens seen infos adm now' t)
+  | IClose dt code :: t => (code =? 0) && flt_prop specs gens seen infos adm (now + dt) t
   end.
 
 Definition is_inherit (o : fop_in) : bool := match o with IInherit _ _ _ _ => true | _ => false end.
+Definition is_close (o : fop_in) : bool := match o with IClose _ _ => true | _ => false end.
 Definition is_limited (o : fop_in) : bool := match o with IHandle _ _ _ c => c =? 1 | _ => false end.
 Definition is_unmatched (o : fop_in) : bool :=
   match o with IHandle _ _ m _ => negb (existsb (fun b => b) m) | _ => false end.
@@ -254,16 +308,17 @@ Fixpoint model_ops (q : quirks) (specs : list fspec) (w : fworld) (now : Z) (ops
   | IHandle g dt m _ :: t =>
       let '(w', o) := fstep q w (FHandle g (now + dt) m) in
       IHandle g dt m (match o with OHandle r => fout_code r | _ => 3 end) :: model_ops q specs w' (now + dt) t
+  | IClose dt _ :: t => IClose dt 0 :: model_ops q specs w (now + dt) t
   end.
 
 Definition check_flt_with (pinned : quirks) (c : flt_case) : result :=
   if fc_bad c then (true, true, 0%N, 0%N) else
   let corr := flt_corr pinned (fc_specs c) fworld0 0 (fc_ops c) in
-  let prop := flt_prop (fc_specs c) [] [] (fc_ops c) in
-  let ideal_ok := flt_prop (fc_specs c) [] [] (model_ops ideal (fc_specs c) fworld0 0 (fc_ops c)) in
+  let prop := flt_prop (fc_specs c) [] [] [] [] 0 (fc_ops c) in
+  let ideal_ok := flt_prop (fc_specs c) [] [] [] [] 0 (model_ops ideal (fc_specs c) fworld0 0 (fc_ops c)) in
   (corr, prop,
    (1 + bN (existsb is_inherit (fc_ops c)) 1 + bN (existsb is_limited (fc_ops c)) 2
-      + bN (existsb is_unmatched (fc_ops c)) 4)%N,
+      + bN (existsb is_unmatched (fc_ops c)) 4 + bN (existsb is_close (fc_ops c)) 8)%N,
    if negb prop && corr && q_rl_inherit_steals_limiter pinned && ideal_ok then 1%N else 0%N).
 
 Fixpoint flt_model_trace (specs : list fspec) (w : fworld) (now : Z) (ops : list fop_in) : list fobs :=
@@ -275,6 +330,7 @@ Fixpoint flt_model_trace (specs : list fspec) (w : fworld) (now : Z) (ops : list
       let '(w', o) := fstep ideal w (FInherit (spec_at specs si) from (now + dt)) in o :: flt_model_trace specs w' (now + dt) t
   | IHandle g dt m _ :: t =>
       let '(w', o) := fstep ideal w (FHandle g (now + dt) m) in o :: flt_model_trace specs w' (now + dt) t
+  | IClose dt _ :: t => flt_model_trace specs w (now + dt) t
   end.
 Definition explain_flt (pinned : quirks) (c : flt_case) := model_ops pinned (fc_specs c) fworld0 0 (fc_ops c).
 
